@@ -2,6 +2,7 @@ import PrysmVerif.Generated.C16
 import PrysmVerif.Lemmas.C16Expose
 import PrysmVerif.Lemmas.C16BinL
 import PrysmVerif.Lemmas.C16Safe
+import PrysmVerif.Lemmas.C16Malvar
 import Mathlib.Data.Rat.Floor
 /-!
 # C16 — sensor model: DN stay in range; binning and mosaicking conserve signal
@@ -413,6 +414,101 @@ theorem malvar_constant_level (cfa : Cfa) (m n : ℕ) (v : Rat) (ch : Chan) (R C
     rcases hk with rfl | rfl | rfl | rfl <;>
       simp [convolve5, Num.sumTo, kernelAt, Model.C16.kernelGAtRB, Model.C16.kernelRAtGInRB, Model.C16.kernelRAtGInBR,
         Model.C16.kernelRAtBInBB, Model.C16.malvarDivisor, Num.ofInt] <;> ring
+
+/-- the green sample of `demosaic_deinterlace` is the mean of the two green samples, over any field (whatever the
+spelling of the average in the source) -/
+theorem gen_deinterlace {K : Type} [Field K] (g1 g2 : K) : Generated.C16.deinterlaceGreen g1 g2 = (g1 + g2) / 2 := by
+  first
+    | (simp only [Generated.C16.deinterlaceGreen, Model.C16.deinterlaceGreen, Num.ofInt]; push_cast; ring)
+    | (simp only [Generated.C16.deinterlaceGreen, Model.C16.deinterlaceGreen, Num.ofInt, Num.ofFrac]; push_cast; ring)
+    | (simp [Generated.C16.deinterlaceGreen, Model.C16.deinterlaceGreen, Num.ofInt]; ring)
+
+/-- `demosaic_deinterlace` of a mosaic assembled from four planes returns the red and the blue plane sample for sample
+(raw samples, no crosstalk) and the mean of the two green planes, both layouts — in particular equal greens keep
+their level -/
+theorem deinterlace_of_recomposite (cfa : Cfa) (planes : Plane → ℕ → ℕ → Rat) (i j : ℕ) :
+    let mosaic := fun R C => (recomposite Generated.C16.siteSlices (Generated.C16.recompPlane cfa) planes R C).getD 0
+    deinterlace Generated.C16.siteSlices (Generated.C16.decompSite cfa) Generated.C16.deinterlaceGreen mosaic .red i j
+        = planes .r i j ∧
+    deinterlace Generated.C16.siteSlices (Generated.C16.decompSite cfa) Generated.C16.deinterlaceGreen mosaic .blue i j
+        = planes .b i j ∧
+    deinterlace Generated.C16.siteSlices (Generated.C16.decompSite cfa) Generated.C16.deinterlaceGreen mosaic .green i j
+        = (planes .g1 i j + planes .g2 i j) / 2 := by
+  intro mosaic
+  have h : ∀ p, decomposite Generated.C16.siteSlices (Generated.C16.decompSite cfa) mosaic p i j = planes p i j := fun p => by
+    simp only [decomposite, mosaic, decomposite_recomposite, Option.getD_some]
+  exact ⟨by simp only [deinterlace, h], by simp only [deinterlace, h], by simp only [deinterlace, h, gen_deinterlace]⟩
+
+/-- the mosaic of a spatially uniform colour `col` under the plane table `rt`: each site holds the level of the colour
+that lives there -/
+def colourMosaic (rt : Site → Plane) (col : Chan → Rat) : ℕ → ℕ → Rat :=
+  fun R C => col (rt (siteOfParity R C)).chan
+
+theorem colourMosaic_parity (rt : Site → Plane) (col : Chan → Rat) :
+    colourMosaic rt col = parityImg (fun p q => col (rt (siteOfParity p q)).chan) := by
+  funext R C
+  have hR : R % 2 = 0 ∨ R % 2 = 1 := by omega
+  have hC : C % 2 = 0 ∨ C % 2 = 1 := by omega
+  rcases hR with hR | hR <;> rcases hC with hC | hC <;> simp [colourMosaic, parityImg, siteOfParity, hR, hC]
+
+/-- Malvar demosaicking recovers a spatially uniform COLOUR exactly: the mosaic of a scene of colour `(r, g, b)` (three
+arbitrary, different levels) demosaicks to `(r, g, b)` at every sample at least two samples from the border, in every
+channel, for every image size and both layouts — this pins which filtered image (`c1`: red neighbours left/right, `c2`:
+above/below, `c3`: diagonal) the generated source table uses at which site, not only the native sites.  (Within two
+samples of the border `ndimage`'s `reflect` rule breaks the colour pattern and nothing is claimed.) -/
+theorem malvar_uniform_colour (cfa : Cfa) (m n : ℕ) (col : Chan → Rat) (ch : Chan) (R C : ℕ)
+    (hR2 : 2 ≤ R) (hRm : R + 2 < m) (hC2 : 2 ≤ C) (hCn : C + 2 < n) :
+    malvar Generated.C16.siteSlices (Generated.C16.malvarSrc cfa) m n
+      (colourMosaic (Generated.C16.recompPlane cfa) col) ch R C = col ch := by
+  unfold malvar
+  rw [siteAt_eq, colourMosaic_parity]
+  simp only [convolve5_parity _ _ _ _ _ _ _ hR2 hRm hC2 hCn]
+  have e : ∀ (x a : ℕ), (x + a) % 2 = (x % 2 + a % 2) % 2 := fun x a => Nat.add_mod x a 2
+  have hR : R % 2 = 0 ∨ R % 2 = 1 := by omega
+  have hC : C % 2 = 0 ∨ C % 2 = 1 := by omega
+  to_model
+  rcases hR with hR | hR <;> rcases hC with hC | hC <;> cases cfa <;> cases ch <;>
+    simp [parityImg, e, hR, hC, siteOfParity, Model.C16.malvarSrc, Model.C16.srcKernel, Model.C16.recompPlane, Plane.chan,
+      Num.sumTo, kernelAt, Model.C16.kernelGAtRB, Model.C16.kernelRAtGInRB, Model.C16.kernelRAtGInBR,
+      Model.C16.kernelRAtBInBB, Model.C16.malvarDivisor, Num.ofInt] <;> ring
+
+/-- non-vacuity: the centre of a 5 × 5 mosaic is an interior sample -/
+example (cfa : Cfa) (col : Chan → Rat) (ch : Chan) :
+    malvar Generated.C16.siteSlices (Generated.C16.malvarSrc cfa) 5 5
+      (colourMosaic (Generated.C16.recompPlane cfa) col) ch 2 2 = col ch :=
+  malvar_uniform_colour cfa 5 5 col ch 2 2 (by norm_num) (by norm_num) (by norm_num) (by norm_num)
+
+/-- the mosaic of a scene whose luminance is an affine function `α·row + β·column` of the position and whose colour
+differences are constant (`col`): each site holds the luminance plus the level of the colour that lives there -/
+def rampMosaic (rt : Site → Plane) (α β : Rat) (col : Chan → Rat) : ℕ → ℕ → Rat :=
+  fun R C => α * R + β * C + col (rt (siteOfParity R C)).chan
+
+/-- Malvar demosaicking is EXACT on affine luminance with constant colour differences (what its gradient correction is
+designed for): for every slope `(α, β)`, every colour offsets `(r, g, b)`, every image size and both layouts, every channel
+of the demosaicked image equals the scene `α·row + β·column + colour` at every sample at least two samples from the border.
+With `α = β = 0` this is `malvar_uniform_colour`.  (Border: `reflect` breaks the pattern, nothing claimed.) -/
+theorem malvar_affine_exact (cfa : Cfa) (m n : ℕ) (α β : Rat) (col : Chan → Rat) (ch : Chan) (R C : ℕ)
+    (hRm : R + 4 < m) (hCn : C + 4 < n) :
+    malvar Generated.C16.siteSlices (Generated.C16.malvarSrc cfa) m n
+      (rampMosaic (Generated.C16.recompPlane cfa) α β col) ch (R + 2) (C + 2)
+      = α * (R + 2 : ℕ) + β * (C + 2 : ℕ) + col ch := by
+  unfold malvar
+  rw [siteAt_eq]
+  simp only [convolve5_interior _ _ _ _ _ _ _ hRm hCn]
+  have e : ∀ (x a : ℕ), (x + a) % 2 = (x % 2 + a % 2) % 2 := fun x a => Nat.add_mod x a 2
+  have hR : R % 2 = 0 ∨ R % 2 = 1 := by omega
+  have hC : C % 2 = 0 ∨ C % 2 = 1 := by omega
+  to_model
+  rcases hR with hR | hR <;> rcases hC with hC | hC <;> cases cfa <;> cases ch <;>
+    simp [rampMosaic, e, hR, hC, siteOfParity, Model.C16.malvarSrc, Model.C16.srcKernel, Model.C16.recompPlane, Plane.chan,
+      Num.sumTo, kernelAt, Model.C16.kernelGAtRB, Model.C16.kernelRAtGInRB, Model.C16.kernelRAtGInBR,
+      Model.C16.kernelRAtBInBB, Model.C16.malvarDivisor, Num.ofInt] <;> ring
+
+/-- non-vacuity: the centre of a 5 × 5 mosaic -/
+example (cfa : Cfa) (α β : Rat) (col : Chan → Rat) (ch : Chan) :
+    malvar Generated.C16.siteSlices (Generated.C16.malvarSrc cfa) 5 5
+      (rampMosaic (Generated.C16.recompPlane cfa) α β col) ch 2 2 = α * (2 : ℕ) + β * (2 : ℕ) + col ch :=
+  malvar_affine_exact cfa 5 5 α β col ch 0 0 (by norm_num) (by norm_num)
 
 /-- safe white balance (UNIT nominal gains only — with other gains `safe` promises nothing and nothing is claimed):
 after dividing the gains by the generated limiting ratio, a plane scaled with unit
